@@ -247,11 +247,24 @@ def main(argv=None):
                     meta.append((arm, k))
                 continue
             nsh, per = shard_plan(arm, tier)
+            if os.environ.get("PV_ONLY_FUZZ") and getattr(arm, "fuzz", None):
+                nsh = 0      # (experiment knob: judge the coverage-guided shards on their own)
             for k in range(nsh):
                 specs.append({"prop": pid, "arm": arm.name, "mode": "collect", "n": per,
                               "seed": seed * 1009 + 101 * ai + k, "ctx": ctx.to_json(),
                               "deadline_s": wall_budget, "timeout_s": 1500 if tier == "quick" else 6 * 3600})
                 meta.append((arm, k))
+        # coverage-guided shards (atheris / libFuzzer driving the same strategy and oracle) for arms that ask for them
+        for ai, arm in enumerate(arms):
+            fz = getattr(arm, "fuzz", None)
+            if not fz or not fz.get(tier):
+                continue
+            nsh, per = fz[tier]
+            for k in range(nsh):
+                specs.append({"prop": pid, "arm": arm.name, "mode": "fuzz", "n": per,
+                              "seed": seed * 7919 + 131 * ai + k + 1, "ctx": ctx.to_json(),
+                              "timeout_s": 1500 if tier == "quick" else 6 * 3600})
+                meta.append((arm, 1000 + k))
         results = pool.run_all(specs)
 
         agg = {}
